@@ -62,8 +62,12 @@ class Condition(torch.nn.Module):
         raise NotImplementedError
 
     def _setup_data_functions(self, data_functions, sampler):
-        for fun in data_functions:
-            data_functions[fun] = UserFunction(data_functions[fun])
+        # The dictionary belongs to the user and may be handed to several conditions:
+        # work on a copy, so that wrapping (and pre-evaluating) the functions here never
+        # changes what the user or another condition sees.
+        data_functions = {
+            fun: UserFunction(data_functions[fun]) for fun in data_functions
+        }
         if isinstance(sampler, StaticSampler):
             # functions can be evaluated once
             for fun in data_functions:
